@@ -37,6 +37,34 @@ def send_sites(facts, b, fl):
     return out
 
 
+def send_wrappers(facts):
+    """helpers whose returned node is always a nop() that carries a Send (wrapper summarisation):
+    a value passed through them has been sent"""
+    out = set()
+    for name, b in mpc_bodies(facts):
+        if b.kind == "closure" or not has_node(b.local_ty(0)):
+            continue
+        nops = [bb for bb, t in b.calls() if callee_name(t) in NOPS and not b.is_cleanup(bb)]
+        if not nops:
+            continue
+        fl = Flow(facts, b, EXTRA)
+        sent = set()
+        for bb, recv, aggs in send_sites(facts, b, fl):
+            for o in recv:
+                if o[0] == "call" and o[2] in NOPS:
+                    sent.add(o[1])
+        rets = C.return_blocks(b)
+        ok = bool(rets)
+        for r in rets:
+            ors = fl.origins([0], (r, None))
+            ors = {o for o in ors if not (o[0] == "call" and "from_residual" in o[2])}
+            if not ors or not all(o[0] == "call" and o[2] in NOPS and o[1] in sent for o in ors):
+                ok = False
+        if ok:
+            out.add(name)
+    return out
+
+
 def mpc_bodies(facts, file_filter=None):
     for n, b in sorted(facts.bodies.items()):
         if b.crate != "ciphercore_base":
@@ -60,6 +88,8 @@ def run(facts, rep, tier, file_filter=None, pid="C02"):
     rep.rule(P + ".Z", "elements of a 3-out-of-3 zero sharing (get_zero_shares / get_node_shares) never reach a function's "
                        "returned node except through a nop() that carries a Send: share i is computable by party i only")
     n_send = n_nop = n_src = 0
+    senders = send_wrappers(facts)
+    rep.tables["send_wrappers"] = sorted(senders)
     for name, b in mpc_bodies(facts, file_filter):
         calls = list(b.calls())
         has_ann = any(callee_name(t) == "graphs::Node::add_annotation" for _, t in calls)
@@ -99,7 +129,7 @@ def run(facts, rep, tier, file_filter=None, pid="C02"):
         # ---- Z
         if srcs and name not in SOURCE_DEFINERS:
             def hook(fl_, bb, t, cn, sent=sent, b=b):
-                if cn in SOURCES:
+                if cn in SOURCES or cn in senders:
                     return "opaque"
                 if cn in NOPS:
                     return "opaque" if bb in sent else list(range(len(t["args"])))
